@@ -2,6 +2,7 @@ SPECIFICATION GSpecT
 CONSTANTS
   STALL = {}
   LateResponseOK = TRUE
+  NoTimeout = FALSE
   STALLOFF = {70, 120, 300}
   REQ = {1, 2}
   T = 100
